@@ -125,7 +125,7 @@ pub struct Naming {
     lazy: Option<u32>,
 }
 
-pub const NAMINGS: [&str; 7] = ["num-asc", "num-desc", "txt-fwd", "txt-rev", "fresh-big", "fresh-next", "fresh-lazy"];
+pub const NAMINGS: [&str; 9] = ["num-asc", "num-desc", "txt-fwd", "txt-rev", "fresh-big", "fresh-next", "fresh-lazy", "mixed-a", "mixed-b"];
 
 impl Naming {
     /// Build the naming `kind` for abstract names 1..=max in the *current thread*.
@@ -181,6 +181,33 @@ impl Naming {
                 // converted (in the middle of the history): see `slot`.
                 for k in names.iter().skip(1) {
                     fwd.insert(*k, Slot::named(&format!("z{k}")));
+                }
+            }
+            "mixed-a" | "mixed-b" => {
+                // all three kinds of slot in one history: textual names interned in REVERSE
+                // alphabetical order, numeric names whose numbers lie just above the interning
+                // index of the textual name before them (found by comparing with numeric
+                // slots), and (mixed-b) a name of the internal `$f<n>` form.  The order of slots
+                // (SlotMap and slot sets are sorted) must be one total order across the kinds.
+                let mut last_txt: Option<Slot> = None;
+                let mut used: Vec<Slot> = Vec::new();
+                for k in &names {
+                    let s = match (kind, *k % 3) {
+                        (_, 1) => Slot::named(&format!("t{}", 99 - *k)),
+                        ("mixed-a", 0) => Slot::named(&format!("a{}", 99 - *k)),
+                        ("mixed-b", 0) => Slot::named(&format!("f{}", 2_000_000 + *k)),
+                        _ => {
+                            let mut n = 0u32;
+                            if let Some(t) = last_txt {
+                                while n < 100_000 && !(Slot::numeric(n) > t) { n += 1; }
+                            }
+                            while used.contains(&Slot::numeric(n)) { n += 1; }
+                            Slot::numeric(n)
+                        }
+                    };
+                    if *k % 3 != 2 { last_txt = Some(s); }
+                    used.push(s);
+                    fwd.insert(*k, s);
                 }
             }
             _ => panic!("unknown naming {kind}"),
